@@ -58,6 +58,9 @@ def plan(tier, seed):
         items.append(dict(arch=arch, scope="stateful"))
     for arch in [[1, 1, 1], [2, 1, 2], [2, 2, 1], [3, 2, 2]] + ([] if tier == "quick" else [[3, 3, 2], [4, 2, 2]]):
         items.append(dict(arch=arch, scope="sampler"))
+    # strongly polarised states (visible biases around +-10: matrix elements spread over ~25 decades)
+    for arch in ([2, 2, 2], [3, 1, 1], [3, 2, 2]):
+        items.append(dict(arch=arch, scope="polarised"))
     return items
 
 
@@ -237,6 +240,15 @@ def run_item(item):
     if item.get("scope") == "sampler":
         run_sampler(acc, item["arch"])
         acc.sample(dict(kind="mixed", arch=item["arch"], scope="sampler", conditionals=["h|v", "a|v", "v|h,a"], out_buffers=["none", "ones", "zeros"]), cap=1)
+        acc.states = acc.evaluations
+        acc.traces = acc.evaluations
+        return acc
+    if item.get("scope") == "polarised":
+        from .c10 import polarised_params
+        for q in range(2):
+            params = polarised_params("mixed", item["arch"], q)
+            check_case(acc, item["arch"], params)
+            acc.sample(dict(kind="mixed", arch=item["arch"], params=params, scope="polarised"), cap=1)
         acc.states = acc.evaluations
         acc.traces = acc.evaluations
         return acc
